@@ -227,7 +227,65 @@ def _spec(r, data, lo, hi, mode):
     return w * r.uniform(0.01, 1.5)
 
 
-def _mk(r, fam, x, y, w, mode, spec, lo, hi, rev=None, mergelast=True, api=None):
+def _fit_form(r, vals, role):
+    """an input form for one column that can hold the values exactly: (values, form).  float32 is only chosen for
+    values that are float32 numbers already (the generators round first, see _as_f4)"""
+    import numpy as np
+    n = len(vals)
+    intlike = all(isinstance(v, int) for v in vals)
+    cont = r.choice(["ndarray"] * 5 + ["list", "list", "tuple"])
+    if n == 1 and r.random() < 0.4:
+        cont = r.choice(["scalar", "0d"])
+    dt, view, ro = None, "contig", False
+    if cont in ("ndarray", "0d"):
+        if intlike:
+            m = max([abs(v) for v in vals] or [0])
+            opts = ["i8", "i8", "f8", ">i8", ">f8"]
+            if m < 2 ** 31:
+                opts += ["i4", ">i4"]
+            if m < 2 ** 15:
+                opts += ["i2", ">i2"]
+            if all(0 <= v <= 255 for v in vals):
+                opts += ["u1", "u4"]
+            if m < 2 ** 24:
+                opts += ["f4", ">f4"]
+            if all(v in (0, 1) for v in vals) and role != "w":
+                opts += ["bool", "bool"]
+        else:
+            opts = ["f8", "f8", "f8", ">f8"]
+            if all(float(np.float32(v)) == v for v in vals):
+                opts += ["f4", "f4", "f4", ">f4"]
+        dt = r.choice(opts)
+        if cont == "ndarray":
+            view = r.choice(["contig"] * 3 + ["strided", "reversed", "strided-reversed"])
+            ro = r.random() < 0.25
+    return {"container": cont, "dtype": dt, "view": view, "readonly": ro}
+
+
+def _as_f4(r, vals, p=0.25):
+    """with probability p replace float data by their float32 roundings (so that a float32 array can carry them)"""
+    import numpy as np
+    if vals is None or all(isinstance(v, int) for v in vals) or r.random() >= p:
+        return vals
+    out = [float(np.float32(v)) for v in vals]
+    return out if all(math.isfinite(v) for v in out) else vals
+
+
+def _num_form(r, v, kind):
+    """how a scalar option is passed: python number, numpy scalar, 0-d array"""
+    import numpy as np
+    if v is None:
+        return None
+    if kind == "count":                       # nbin, nperbin
+        opts = ["py", "py", "np.int64", "np.int32"] + (["np.uint8"] if 0 <= v < 256 else [])
+    elif isinstance(v, int):
+        opts = ["py", "py", "np.int64", "np.float64", "0d"]
+    else:
+        opts = ["py", "py", "np.float64", "0d"] + (["np.float32"] if float(np.float32(v)) == v else [])
+    return r.choice(opts)
+
+
+def _mk(r, fam, x, y, w, mode, spec, lo, hi, rev=None, mergelast=True, api=None, plain=False):
     if api is None:
         api = r.choice(["binner", "binner", "binner2", "histogram"])
     if y is not None and api == "histogram":
@@ -236,11 +294,23 @@ def _mk(r, fam, x, y, w, mode, spec, lo, hi, rev=None, mergelast=True, api=None)
         rev = r.random() < 0.8
     if api == "histogram":
         rev = True if w is None else rev          # histogram(more=True) implies rev
-    return {"family": fam, "x": _encl(x), "y": _encl(y), "w": _encl(w), "mode": mode,
-            "spec": _enc(spec) if mode == "binsize" else int(spec),
-            "min": None if lo is None else _enc(lo), "max": None if hi is None else _enc(hi),
-            "rev": bool(rev), "mergelast": bool(mergelast), "api": api,
-            "container": r.choice(["ndarray", "list"])}
+    c = {"family": fam, "x": _encl(x), "y": _encl(y), "w": _encl(w), "mode": mode,
+         "spec": _enc(spec) if mode == "binsize" else int(spec),
+         "min": None if lo is None else _enc(lo), "max": None if hi is None else _enc(hi),
+         "rev": bool(rev), "mergelast": bool(mergelast), "api": api,
+         "container": r.choice(["ndarray", "list"])}
+    if not plain:
+        c["forms"] = {"x": _fit_form(r, x, "x"), "y": None if y is None else _fit_form(r, y, "y"),
+                      "w": None if w is None else _fit_form(r, w, "w")}
+        c["numforms"] = {"min": _num_form(r, lo, "value"), "max": _num_form(r, hi, "value"),
+                         "spec": _num_form(r, spec, "value" if mode == "binsize" else "count")}
+        # keyword style: defaults omitted or spelled out; None spelled out; a previous call on the same object
+        c["kw"] = {"rev_omit": (not rev) and r.random() < 0.5, "mergelast_omit": mergelast and r.random() < 0.5,
+                   "none_explicit": r.random() < 0.4, "calc_stats_explicit": r.random() < 0.3}
+        if x and r.random() < 0.25:
+            c["twice"] = r.choice([{"nbin": 2}, {"binsize": 1.0}, {"nperbin": 2, "mergelast": False},
+                                   {"nbin": 3, "min": _num(c["x"][0])}, {"nperbin": 1}, {"binsize": 0.5, "max": _num(c["x"][-1])}])
+    return c
 
 
 def _adversarial_binned(r):
@@ -312,9 +382,11 @@ def _random(ctx, count, big, nperbin):
     while len(cs) < count:
         kind = r.choice(KINDS)
         n = r.choice([1, 2, 3, r.randrange(1, 12), r.randrange(1, 40), r.randrange(1, big)])
-        x = _data(r, kind, n)
-        y = _second(r, x) if r.random() < 0.45 else None
-        w = _weights(r, n) if r.random() < 0.6 else None
+        x = _as_f4(r, _data(r, kind, n))
+        y = _as_f4(r, _second(r, x)) if r.random() < 0.45 else None
+        w = _as_f4(r, _weights(r, n)) if r.random() < 0.6 else None
+        if y is not None and r.random() < 0.08:
+            y = [r.choice([0, 1]) for _ in x]                     # a flag column (bool dtype possible)
         which = r.choice(["none", "none", "lo", "hi", "both"])
         lo, hi = _limits(r, x, which)
         if nperbin:
@@ -332,77 +404,220 @@ def _random(ctx, count, big, nperbin):
     return cs
 
 
+LONG_SIZES = [255, 256, 257, 511, 513, 1023, 1025]
+
+
+def _long(ctx, count, nperbin, sizes=LONG_SIZES):
+    """arrays of 2^k-1, 2^k, 2^k+1 elements, low-precision values (integers, ties, one decimal) so that the exact
+    rational arithmetic in Coq stays cheap; few bins"""
+    r = ctx.rng
+    cs = []
+    for _ in range(count):
+        n = r.choice(sizes)
+        kind = r.choice(["ints", "ties", "decimal"])
+        x = _data(r, kind, n)
+        if kind == "ints":
+            x = [v % 1000 for v in x]
+        y = [r.randrange(-9, 10) for _ in x] if r.random() < 0.4 else None
+        w = [r.choice([1, 2, 3, 5]) for _ in x] if r.random() < 0.5 else None
+        which = r.choice(["none", "none", "lo", "hi"])
+        lo, hi = _limits(r, x, which)
+        if nperbin:
+            k = r.choice([1 if n < 300 else 7, 2 if n < 300 else 16, 64, 128, 129, n // 2, n // 2 + 1, n - 1, n, n + 1, 100])
+            c = _mk(r, "long%d/nperbin/%s" % (n, which), x, y, w, "nperbin", k, lo, hi, mergelast=r.random() < 0.5)
+        else:
+            mode = r.choice(["nbin", "binsize"])
+            if mode == "nbin":
+                spec = r.choice([1, 2, 3, 5, 8, 17, 33])
+            else:
+                xs = [float(v) for v in x]
+                a = min(xs) if lo is None else float(lo)
+                b = max(xs) if hi is None else float(hi)
+                spec = (abs(b - a) or 1.0) / r.choice([1, 2, 4, 7, 16, 32])
+            c = _mk(r, "long%d/%s/%s" % (n, mode, which), x, y, w, mode, spec, lo, hi)
+        e = expected(c)
+        if e is None or e["nbin"] > MAXBIN:
+            continue
+        cs.append(c)
+    return cs
+
+
+def _rejected_forms(r):
+    """inputs the code rejects, in several forms (no claim; the model must agree on the error class)"""
+    cs = []
+    for api in ("binner", "histogram"):
+        cs.append(_mk(r, "rejected:empty", [], None, None, "nbin", 2, None, None, api=api))
+        cs.append(_mk(r, "rejected:empty", [], None, None, "nperbin", 2, None, None, api=api))
+    cs.append(_mk(r, "rejected:ylen", [1, 2, 3], [1, 2], None, "binsize", 1, None, None, api="binner"))
+    cs.append(_mk(r, "rejected:wlen", [1, 2, 3], None, [1, 2], "nperbin", 2, None, None, api="binner"))
+    cs.append(_mk(r, "rejected:wlen", [1, 2, 3], None, [1, 2, 3, 4], "nbin", 2, None, None, api="histogram"))
+    cs.append(_mk(r, "rejected:range", [1.5, 2.5], [0, 1], [1, 1], "nperbin", 1, 3, None, api="binner"))
+    return cs
+
+
 # ----------------------------------------------------------------------------- the real code
 UKEYS = ["mean", "std", "err", "median"]
 WKEYS = ["mean", "std", "err", "err2"]
 
 
+def _build(vals, form, legacy_container):
+    """the python object handed to esutil for one column"""
+    import numpy as np
+    if vals is None:
+        return None
+    v = [_num(t) for t in vals]
+    if form is None:
+        return np.array(v) if legacy_container == "ndarray" else v
+    cont, dt = form["container"], form["dtype"]
+    if cont == "list":
+        return v
+    if cont == "tuple":
+        return tuple(v)
+    if cont == "scalar":
+        return v[0]
+    if cont == "0d":
+        return np.array(v[0], dtype=dt)
+    a = np.array(v, dtype=dt)
+    assert [float(t) for t in a] == [float(t) for t in v], "dtype cannot hold the values"
+    view = form["view"]
+    if view != "contig" and a.size:
+        rev = "reversed" in view
+        src = a[::-1] if rev else a
+        if "strided" in view:
+            big = np.empty(2 * a.size + 1, dtype=a.dtype)
+            big[...] = a[0]
+            big[1::2] = src
+            src = big[1::2]
+        else:
+            src = src.copy()
+        a = src[::-1] if rev else src
+        assert not a.flags.owndata
+    if form["readonly"]:
+        a.setflags(write=False)
+    return a
+
+
+def _scalar(v, how):
+    import numpy as np
+    if v is None or how in (None, "py"):
+        return v
+    if how == "0d":
+        return np.array(v)
+    return getattr(np, how[3:])(v)
+
+
+def _collect(b, has_y, has_w):
+    """canonical output of a Binner: which kind of binning it holds, hist, rev, edges or low/high, per-bin rows"""
+    xp = "x" if has_y else ""
+    hist = [int(v) for v in b["hist"]]
+    nh = len(hist)
+    out = {"hist": hist, "rev": [int(v) for v in b["rev"]] if "rev" in b else []}
+    if "nperbin" in b:
+        out["kind"] = "num"
+        out["low"] = [float(v).hex() for v in b["low"]]
+        out["high"] = [float(v).hex() for v in b["high"]]
+        assert "center" not in b and "xcenter" not in b
+    else:
+        out["kind"] = "binned"
+        lo, hi, ce = b[xp + "low"], b[xp + "high"], b[xp + "center"]
+        assert len(lo) == len(hi) == len(ce)
+        out["edges"] = [[float(lo[i]).hex(), float(hi[i]).hex(), float(ce[i]).hex()] for i in range(len(lo))]
+    rows = []
+    if "rev" in b:
+        keys = [xp + k for k in UKEYS]
+        if has_y:
+            keys += ["y" + k for k in UKEYS]
+        if has_w:
+            keys += ["whist"] + ["w" + xp + k for k in WKEYS]
+            if has_y:
+                keys += ["wy" + k for k in WKEYS]
+        colsv = [b[k] for k in keys]
+        for col in colsv:
+            assert len(col) == nh, "per-bin array of wrong length"
+        for i in range(nh):
+            rows.append([float(col[i]).hex() for col in colsv])
+    else:
+        assert not any(k in b for k in ("mean", "xmean", "whist"))
+    out["rows"] = rows
+    return out
+
+
 def _drive(c):
     import numpy as np
     import esutil.stat as st
-
-    def arr(l):
-        if l is None:
-            return None
-        v = [_num(t) for t in l]
-        return np.array(v) if c["container"] == "ndarray" else v
-    x, y, w = arr(c["x"]), arr(c["y"]), arr(c["w"])
+    forms = c.get("forms") or {}
+    nf = c.get("numforms") or {}
+    ks = c.get("kw") or {}
+    x = _build(c["x"], forms.get("x"), c.get("container"))
+    y = _build(c["y"], forms.get("y"), c.get("container"))
+    w = _build(c["w"], forms.get("w"), c.get("container"))
     kw = {}
-    if c["mode"] == "nbin":
-        kw["nbin"] = c["spec"]
+    if c["mode"] == "combo":
+        for name in ("binsize", "nbin", "nperbin"):
+            if c["opts"].get(name) is not None:
+                kw[name] = _num(c["opts"][name])
+        if "nperbin" in kw or not ks.get("mergelast_omit"):
+            kw["mergelast"] = c["mergelast"]
+    elif c["mode"] == "nbin":
+        kw["nbin"] = _scalar(c["spec"], nf.get("spec"))
     elif c["mode"] == "binsize":
-        kw["binsize"] = _num(c["spec"])
+        kw["binsize"] = _scalar(_num(c["spec"]), nf.get("spec"))
     else:
-        kw["nperbin"] = c["spec"]
-        kw["mergelast"] = c["mergelast"]
+        kw["nperbin"] = _scalar(c["spec"], nf.get("spec"))
+        if not ks.get("mergelast_omit"):
+            kw["mergelast"] = c["mergelast"]
     if c["min"] is not None:
-        kw["min"] = _num(c["min"])
+        kw["min"] = _scalar(_num(c["min"]), nf.get("min"))
+    elif ks.get("none_explicit"):
+        kw["min"] = None
     if c["max"] is not None:
-        kw["max"] = _num(c["max"])
+        kw["max"] = _scalar(_num(c["max"]), nf.get("max"))
+    elif ks.get("none_explicit"):
+        kw["max"] = None
+    if not ks.get("rev_omit"):
+        kw["rev"] = c["rev"]
+
+    def snapshot(a):
+        return None if not isinstance(a, np.ndarray) else (a.dtype.str, a.tobytes() if a.flags.c_contiguous else a.copy().tobytes())
 
     def f():
+        before = [snapshot(a) for a in (x, y, w)]
         if c["api"] == "histogram":
-            if w is None:
-                b = st.histogram(x, more=True, **kw)
-            else:
-                b = st.histogram(x, weights=w, more=bool(c["rev"]), rev=c["rev"], **kw)
-        else:
-            b = st.Binner(x, y=y, weights=w)
-            if c["api"] == "binner2":
-                b.dohist(rev=c["rev"], calc_stats=False, **kw)
-                b.calc_stats()
-            else:
-                b.dohist(rev=c["rev"], **kw)
-        xp = "x" if y is not None else ""
-        hist = [int(v) for v in b["hist"]]
-        nh = len(hist)
-        out = {"hist": hist, "rev": [int(v) for v in b["rev"]] if "rev" in b else []}
-        if c["mode"] == "nperbin":
-            out["low"] = [float(v).hex() for v in b["low"]]
-            out["high"] = [float(v).hex() for v in b["high"]]
-            assert "center" not in b and "xcenter" not in b
-        else:
-            lo, hi, ce = b[xp + "low"], b[xp + "high"], b[xp + "center"]
-            assert len(lo) == len(hi) == len(ce)
-            out["edges"] = [[float(lo[i]).hex(), float(hi[i]).hex(), float(ce[i]).hex()] for i in range(len(lo))]
-        rows = []
-        if "rev" in b:
-            keys = [xp + k for k in UKEYS]
-            if y is not None:
-                keys += ["y" + k for k in UKEYS]
+            hk = dict(kw)
             if w is not None:
-                keys += ["whist"] + ["w" + xp + k for k in WKEYS]
-                if y is not None:
-                    keys += ["wy" + k for k in WKEYS]
-            colsv = [b[k] for k in keys]
-            for col in colsv:
-                assert len(col) == nh, "per-bin array of wrong length"
-            for i in range(nh):
-                rows.append([float(col[i]).hex() for col in colsv])
+                hk["weights"] = w
+                hk["more"] = bool(c["rev"])
+            else:
+                hk["more"] = True
+                hk.pop("rev", None)
+                if ks.get("none_explicit"):
+                    hk["weights"] = None
+            if c.get("twice"):
+                st.histogram(x, **hk)
+            b = st.histogram(x, **hk)
         else:
-            assert not any(k in b for k in ("mean", "xmean", "whist"))
-        out["rows"] = rows
-        return out
+            if ks.get("none_explicit") or y is not None or w is not None:
+                b = st.Binner(x, y=y, weights=w)
+            else:
+                b = st.Binner(x)
+            if c.get("twice"):
+                t = dict(c["twice"])
+                try:
+                    b.dohist(**t)
+                    b.calc_stats()
+                except Exception:           # whatever the first call does must not influence the second
+                    pass
+            if c["api"] == "binner2":
+                b.dohist(calc_stats=False, **kw)
+                b.calc_stats()
+                if c.get("twice"):
+                    b.calc_stats()
+            elif ks.get("calc_stats_explicit"):
+                b.dohist(calc_stats=True, **kw)
+            else:
+                b.dohist(**kw)
+        assert before == [snapshot(a) for a in (x, y, w)], "an input array was modified"
+        return _collect(b, y is not None, w is not None)
     with warnings.catch_warnings():
         warnings.simplefilter("ignore")
         with np.errstate(all="ignore"):
@@ -435,6 +650,24 @@ def _classify(c, out):
     return cls
 
 
+def _out_binned(out):
+    if out[0] != "ok":
+        return "(Err %s)" % out[1]
+    o = out[1]
+    if o["kind"] != "binned":
+        return "(Err EOther)"                      # the wrong kind of result: never equal to the model's
+    return "(Ok (mkI %s %s %s %s))" % (clist(o["hist"]), clist(o["rev"]), _cedges(o["edges"]), crows(o["rows"]))
+
+
+def _out_num(out):
+    if out[0] != "ok":
+        return "(Err %s)" % out[1]
+    d = out[1]
+    if d["kind"] != "num":
+        return "(Err EOther)"
+    return "(Ok (mkN %s %s %s %s %s))" % (clist(d["hist"]), clist(d["rev"]), chexl(d["low"]), chexl(d["high"]), crows(d["rows"]))
+
+
 def _cedges(es):
     return "[" + "; ".join("(%s, %s, %s)" % tuple(cfloat(float.fromhex(v)) for v in e) for e in es) + "]"
 
@@ -447,6 +680,8 @@ class Binned(Entry):
         cs = []
         if round == 0:
             cs += _adversarial_binned(ctx.rng)
+            cs += _rejected_forms(ctx.rng)
+            cs += _long(ctx, ctx.n(6, 40), False)
         cs += _random(ctx, ctx.n(480, 4000), ctx.n(120, 300), False)
         ctx.rng.shuffle(cs)
         return cs
@@ -458,10 +693,7 @@ class Binned(Entry):
         return "%s %s %s %s %s" % (ccols(c), cbool(c["rev"]), copt_f(c["min"]), copt_f(c["max"]), cmode(c))
 
     def _out(self, out):
-        if out[0] != "ok":
-            return "(Err %s)" % out[1]
-        o = out[1]
-        return "(Ok (mkI %s %s %s %s))" % (clist(o["hist"]), clist(o["rev"]), _cedges(o["edges"]), crows(o["rows"]))
+        return _out_binned(out)
 
     def term(self, c, out):
         return "v_binned %s %s" % (self._input(c), self._out(out))
@@ -498,6 +730,7 @@ class NPerBin(Entry):
         cs = []
         if round == 0:
             cs += _adversarial_num(ctx.rng)
+            cs += _long(ctx, ctx.n(8, 50), True, LONG_SIZES + ([2047, 2049] if not ctx.quick() else []))
         cs += _random(ctx, ctx.n(320, 2500), ctx.n(120, 300), True)
         ctx.rng.shuffle(cs)
         return cs
@@ -509,12 +742,9 @@ class NPerBin(Entry):
         return "%s %s %s %s %s" % (ccols(c), copt_f(c["min"]), copt_f(c["max"]), cz(c["spec"]), cbool(c["mergelast"]))
 
     def term(self, c, out):
-        if out[0] != "ok":
-            o = "(Err %s)" % out[1]
-        else:
+        o = _out_num(out)
+        if out[0] == "ok" and out[1]["kind"] == "num":
             d = out[1]
-            o = "(Ok (mkN %s %s %s %s %s))" % (clist(d["hist"]), clist(d["rev"]), chexl(d["low"]), chexl(d["high"]),
-                                               crows(d["rows"]))
             n = len(d["rev"]) - len(d["hist"]) - 1
             if c["spec"] >= 1 and n >= 1:
                 self.monitors.add((n, c["spec"]))
@@ -538,7 +768,222 @@ class NPerBin(Entry):
         return _classify(c, out)
 
 
-ENTRIES = [Binned(), NPerBin()]
+class Combo(Entry):
+    """several of binsize= / nbin= / nperbin= together, or none of them: which one wins (Model.resolve)"""
+    name = "combo"
+    search_rounds = 1
+
+    def cases(self, ctx, round=0):
+        r = ctx.rng
+        cs = []
+        for _ in range(ctx.n(60, 400)):
+            kind = r.choice(KINDS)
+            n = r.choice([1, 2, 3, 5, r.randrange(1, 30)])
+            x = _data(r, kind, n)
+            y = _second(r, x) if r.random() < 0.3 else None
+            w = _weights(r, n) if r.random() < 0.4 else None
+            api = "histogram" if y is None and r.random() < 0.5 else "binner"
+            opts = {"binsize": None, "nbin": None, "nperbin": None}
+            pattern = r.choice(["bs+nb", "bs+k", "nb+k", "all", "none", "bs", "nb", "k"])
+            if pattern in ("bs+nb", "bs+k", "all", "bs"):
+                opts["binsize"] = _enc(r.choice([1, 0.5, 2, 2.5]))
+            if pattern in ("bs+nb", "nb+k", "all", "nb"):
+                opts["nbin"] = r.choice([1, 2, 3, 7])
+            if pattern in ("bs+k", "nb+k", "all", "k"):
+                opts["nperbin"] = r.choice([1, 2, 3, n, n + 1])
+            lo, hi = _limits(r, x, r.choice(["none", "none", "lo", "hi"]))
+            c = _mk(r, "combo:" + pattern, x, y, w, "combo", 0, lo, hi, mergelast=r.random() < 0.5, api=api)
+            c["opts"] = opts
+            c.pop("twice", None)
+            xs = [float(v) for v in x]
+            if opts["binsize"] is not None and (max(xs) - min(xs)) / _f(opts["binsize"]) > MAXBIN:
+                continue
+            cs.append(c)
+        return cs
+
+    def impl(self, c):
+        return _drive(c)
+
+    def term(self, c, out):
+        o = c["opts"]
+        if out[0] == "ok" and out[1]["kind"] == "num":
+            res = "(ONum %s)" % _out_num(out)
+        else:
+            res = "(OBinned %s)" % _out_binned(out)
+        rev = c["rev"] or (c["api"] == "histogram" and c["w"] is None)
+        return "v_resolved %s %s %s %s %s %s %s %s %s %s" % (
+            cbool(c["api"] == "histogram"), ccols(c), cbool(rev), copt_f(c["min"]), copt_f(c["max"]),
+            copt_f(o["binsize"]), core.copt(o["nbin"]), core.copt(o["nperbin"]), cbool(c["mergelast"]), res)
+
+    def nontrivial(self, c, out):
+        return out[0] == "ok" and len(out[1]["hist"]) >= 2 and sum(1 for v in c["opts"].values() if v is not None) != 1
+
+    def family(self, c):
+        return "%s:%s" % (c["family"], c["api"])
+
+
+ENTRIES = [Binned(), NPerBin(), Combo()]
+
+
+# ----------------------------------------------------------------------------- arrays beyond Coq's reach
+HUGE_SIZES = [4095, 4097, 16383, 16385, 65535, 65537, 100001]
+
+
+def _huge_case(r, n):
+    return {"entry": "huge", "family": "huge%d" % n, "gen": {"seed": r.randrange(10 ** 9), "n": n,
+            "kind": r.choice(["gauss", "ints", "ties", "uniform"])},
+            "y": r.random() < 0.5, "w": r.random() < 0.6, "mode": r.choice(["nbin", "binsize", "nperbin", "nperbin"]),
+            "nbin": r.choice([1, 2, 7, 64, 257, 1000]), "nperbin": r.choice([1, 2, 3, 255, 256, 257, 4096, n // 2 + 1, n - 1, n]),
+            "mergelast": r.random() < 0.5, "limits": r.choice(["none", "none", "lo", "hi", "both"]),
+            "dtype": r.choice(["f8", "f8", "f4", "i4", ">f8"]), "api": r.choice(["binner", "histogram"])}
+
+
+def _huge_data(c):
+    import numpy as np
+    g = c["gen"]
+    rs = np.random.RandomState(g["seed"])
+    n = g["n"]
+    if g["kind"] == "gauss":
+        x = rs.normal(size=n)
+    elif g["kind"] == "uniform":
+        x = rs.uniform(-1000, 1000, size=n)
+    elif g["kind"] == "ints":
+        x = rs.randint(-500, 500, size=n).astype("f8")
+    else:
+        x = rs.choice(rs.normal(size=37), size=n)
+    if c["dtype"] == "i4":
+        x = np.round(x * 10).astype("i4")
+    else:
+        x = x.astype(c["dtype"])
+    y = rs.normal(size=n) if c["y"] else None
+    w = rs.uniform(0.1, 3.0, size=n) if c["w"] else None
+    return x, y, w
+
+
+def _huge_one(c):
+    """run the real code on a long array and compare with a direct numpy computation per bin (python-side oracle:
+    float64, relative tolerance 1e-9 against a condition-aware scale); returns a list of discrepancies"""
+    import numpy as np
+    import esutil.stat as st
+    x, y, w = _huge_data(c)
+    if c["api"] == "histogram":
+        y = None
+    xf = x.astype("f8")
+    xs = np.sort(xf)
+    lo = float(xs[len(xs) // 5]) if c["limits"] in ("lo", "both") else None
+    hi = float(xs[-len(xs) // 7]) if c["limits"] in ("hi", "both") else None
+    kw = {}
+    if lo is not None:
+        kw["min"] = lo
+    if hi is not None:
+        kw["max"] = hi
+    if c["mode"] == "nbin":
+        kw["nbin"] = c["nbin"]
+    elif c["mode"] == "binsize":
+        dmin = xs[0] if lo is None else lo
+        dmax = xs[-1] if hi is None else hi
+        kw["binsize"] = float((dmax - dmin) / c["nbin"]) or 1.0
+    else:
+        kw["nperbin"] = c["nperbin"]
+        kw["mergelast"] = c["mergelast"]
+    with warnings.catch_warnings():
+        warnings.simplefilter("ignore")
+        if c["api"] == "histogram":
+            b = st.histogram(x, weights=w, more=True, **kw)
+        else:
+            b = st.Binner(x, y=y, weights=w)
+            b.dohist(rev=True, **kw)
+    bad = []
+    sel = np.ones(len(xf), bool)
+    if lo is not None:
+        sel &= xf >= lo
+    if hi is not None:
+        sel &= xf <= hi
+    order = np.argsort(xf, kind="stable")
+    order = order[sel[order]]
+    hist, rev = np.asarray(b["hist"]), np.asarray(b["rev"])
+    if c["mode"] == "nperbin":
+        k = c["nperbin"]
+        n = len(order)
+        cuts = list(range(0, n, k))
+        groups = [order[a:a + k] for a in cuts]
+        if len(groups) >= 2 and len(groups[-1]) != k and c["mergelast"]:
+            groups[-2] = np.concatenate([groups[-2], groups[-1]])
+            groups.pop()
+    else:
+        dmin = xf[order[0]] if lo is None else lo
+        dmax = xf[order[-1]] if hi is None else hi
+        if c["mode"] == "nbin":
+            nb, bs = c["nbin"], float(dmax - dmin) / c["nbin"]
+        else:
+            bs = kw["binsize"]
+            nb = int(np.int64((dmax - dmin) / bs)) + 1
+        with np.errstate(all="ignore"):
+            bn = np.floor((xf[order] - dmin) / bs) if bs != 0 else np.full(len(order), -1.0)
+        groups = [order[bn == i] for i in range(nb)]
+        xp = "x" if y is not None else ""
+        low = dmin + np.arange(nb) * bs
+        for key, ref in ((xp + "low", low), (xp + "high", low + bs), (xp + "center", low + 0.5 * bs)):
+            if len(b[key]) != nb or not np.allclose(b[key], ref, rtol=1e-9, atol=1e-9 * (abs(dmin) + abs(bs) * nb)):
+                bad.append(key)
+    if len(hist) != len(groups):
+        return ["number of bins %d, expected %d" % (len(hist), len(groups))]
+    xp = "x" if y is not None else ""
+
+    def close(a, ref, scale):
+        return abs(a - ref) <= 1e-9 * (abs(ref) + scale) + 1e-300
+    for i, g in enumerate(groups):
+        got = rev[rev[i]:rev[i + 1]]
+        if hist[i] != len(g) or not np.array_equal(got, g):
+            bad.append("members of bin %d" % i)
+            continue
+        if c["mode"] == "nperbin" and len(g) and (b["low"][i] != xf[g[0]] or b["high"][i] != xf[g[-1]]):
+            bad.append("low/high of bin %d" % i)
+        cols = [(xp, xf)] + ([("y", y)] if y is not None else [])
+        for pre, v in cols:
+            if len(g) == 0:
+                if any(b[pre + kk][i] != -9999.0 for kk in ("mean", "std", "err", "median")):
+                    bad.append("sentinel of bin %d" % i)
+                continue
+            vv = v[g]
+            A = np.abs(vv).mean()
+            ok = close(b[pre + "mean"][i], vv.mean(), A) and close(b[pre + "std"][i], vv.std(), A) \
+                and close(b[pre + "median"][i], np.median(vv), A) \
+                and (len(g) < 2 or close(b[pre + "err"][i], vv.std() / np.sqrt(len(g)), A))
+            if w is not None:
+                ww = w[g]
+                wm = (ww * vv).sum() / ww.sum()
+                Aw = np.abs(ww * vv).sum() / ww.sum()
+                ok = ok and close(b["w" + pre + "mean"][i], wm, Aw) \
+                    and close(b["w" + pre + "std"][i], np.sqrt((ww * (vv - wm) ** 2).sum() / ww.sum()), Aw) \
+                    and close(b["w" + pre + "err"][i], 1 / np.sqrt(ww.sum()), 0) \
+                    and close(b["w" + pre + "err2"][i], np.sqrt((ww ** 2 * (vv - wm) ** 2).sum()) / ww.sum(), Aw) \
+                    and close(b["whist"][i], ww.sum(), 0)
+            if not ok:
+                bad.append("statistics of bin %d (%s)" % (i, pre or "x"))
+        if len(g) == 0 and w is not None and b["whist"][i] != 0:
+            bad.append("whist of empty bin %d" % i)
+        if len(bad) > 5:
+            break
+    return bad
+
+
+def huge_checks(ctx, replay):
+    if replay is not None:
+        if replay.get("entry") != "huge":
+            return
+        cases = [replay["case"]]
+    else:
+        r = ctx.rng
+        cases = [_huge_case(r, n) for n in HUGE_SIZES for _ in range(ctx.n(3, 10))]
+    for c in cases:
+        res = core.guarded(_huge_one, c)
+        bad = res[1] if res[0] == "ok" else ["exception %s" % res[2]]
+        ctx.case(["huge", c], c["mode"] != "nbin" or c["nbin"] > 1, "huge:%s:%s" % (c["mode"], c["dtype"]))
+        ctx.count("verdict:huge:%d" % (2 if bad else 0))
+        if bad:
+            ctx.violation("huge: per-bin quantities of a long array differ from the direct computation (%s)" % "; ".join(bad[:3]),
+                          {"kind": "failing-input", "entry": "huge", "case": c, "discrepancies": bad[:10]}, found_input=True)
 
 TRUSTED = [
     "Coq 8.16.1 kernel (coqc, vm_compute; no native_compute); C14 theorems are closed under the global context except "
@@ -556,6 +1001,8 @@ TRUSTED = [
     "translator harness/props/c14_translate.py (python ast, fail-closed): re-reads on every run what each key is assigned in "
     "the single-member and several-member branches of the statistics loop and the constants -9999.0 / 0 / 0.5, compared in "
     "Coq with the tables of Model.v, which Proofs.tables_are_the_model ties to the model",
+    "arrays of 4095..100001 elements (beyond what the quadratic list model evaluates in Coq) are compared with a python-side "
+    "numpy oracle (direct computation per bin, float64, 1e-9 relative): not a verified checker",
     "python harness (harness/props/C14.py): drivers, key names of the result dictionary, hex-float printer; coqc "
     "evaluating Exec.v verdict terms",
 ]
@@ -597,6 +1044,7 @@ def run(ctx, replay=None):
                           {"kind": "translation", "error": str(e)[-1500:],
                            "no_longer_checks": "tie of C14.Model tables to util.py"}, found_input=False)
     differential(ctx, PRE, ENTRIES, replay)
+    huge_checks(ctx, replay)
     ent = ENTRIES[1]
     if ent.monitors:
         pairs = sorted(ent.monitors)
